@@ -11,36 +11,48 @@ use circular_buffer::CircularBuffer;
 use std::cell::Cell;
 use std::panic::{catch_unwind, AssertUnwindSafe};
 
-thread_local! {
-    static CREATED: Cell<u64> = const { Cell::new(0) };
-    static DROPPED: Cell<u64> = const { Cell::new(0) };
-}
-fn live() -> i64 {
-    CREATED.with(|c| c.get()) as i64 - DROPPED.with(|c| c.get()) as i64
-}
-fn reset_counters() {
-    CREATED.with(|c| c.set(0));
-    DROPPED.with(|c| c.set(0));
+/// Drop-counting element; `Z` is zero-sized, `S` is an ordinary one-byte element (the reference).
+pub trait Elem: Clone + std::fmt::Debug + PartialEq + PartialOrd + Ord + std::hash::Hash + Sized {
+    fn new() -> Self;
+    fn live() -> i64;
+    fn reset_counters();
 }
 
-#[derive(Debug, PartialEq, Eq, PartialOrd, Ord, Hash)]
-pub struct Z;
-impl Z {
-    fn new() -> Z {
-        CREATED.with(|c| c.set(c.get() + 1));
-        Z
-    }
+macro_rules! counting_elem {
+    ($name:ident, $body:ty, $mk:expr, $created:ident, $dropped:ident) => {
+        thread_local! {
+            static $created: Cell<u64> = const { Cell::new(0) };
+            static $dropped: Cell<u64> = const { Cell::new(0) };
+        }
+        #[derive(Debug, PartialEq, Eq, PartialOrd, Ord, Hash)]
+        pub struct $name($body);
+        impl Elem for $name {
+            fn new() -> Self {
+                $created.with(|c| c.set(c.get() + 1));
+                $name($mk)
+            }
+            fn live() -> i64 {
+                $created.with(|c| c.get()) as i64 - $dropped.with(|c| c.get()) as i64
+            }
+            fn reset_counters() {
+                $created.with(|c| c.set(0));
+                $dropped.with(|c| c.set(0));
+            }
+        }
+        impl Clone for $name {
+            fn clone(&self) -> Self {
+                <$name as Elem>::new()
+            }
+        }
+        impl Drop for $name {
+            fn drop(&mut self) {
+                $dropped.with(|c| c.set(c.get() + 1));
+            }
+        }
+    };
 }
-impl Clone for Z {
-    fn clone(&self) -> Z {
-        Z::new()
-    }
-}
-impl Drop for Z {
-    fn drop(&mut self) {
-        DROPPED.with(|c| c.set(c.get() + 1));
-    }
-}
+counting_elem!(Z, (), (), Z_CREATED, Z_DROPPED);
+counting_elem!(S, u8, 7u8, S_CREATED, S_DROPPED);
 
 const MAXI: usize = usize::MAX;
 pub const CAPS: [usize; 12] = [
@@ -160,12 +172,12 @@ pub fn prefixes() -> Vec<(u8, usize)> {
     v
 }
 
-fn apply_prefix<const N: usize>(b: &mut CircularBuffer<N, Z>, p: (u8, usize)) {
+fn apply_prefix<const N: usize, T: Elem>(b: &mut CircularBuffer<N, T>, p: (u8, usize)) {
     for _ in 0..p.1 {
         if p.0 == 0 {
-            drop(b.push_front(Z::new()));
+            drop(b.push_front(T::new()));
         } else {
-            drop(b.push_back(Z::new()));
+            drop(b.push_back(T::new()));
             drop(b.pop_front());
         }
     }
@@ -176,61 +188,34 @@ fn apply_prefix<const N: usize>(b: &mut CircularBuffer<N, Z>, p: (u8, usize)) {
     }
 }
 
-/// apply one action to buffer and model length; Err(text) = violation
-fn step<const N: usize>(b: &mut CircularBuffer<N, Z>, len: &mut usize, act: ZAct) -> Result<(), String> {
-    let l = *len;
-    let expect_panic = match act {
-        ZAct::Swap(i, j) => i >= l || j >= l,
-        ZAct::Drain(a, bb, _) => {
-            let e = if bb == MAXI { l } else { bb };
-            a > e || e > l
-        }
-        _ => false,
-    };
-    // model
-    let mut new_len = l;
-    let mut want_some: Option<bool> = None;
-    match act {
-        ZAct::PushBack | ZAct::PushFront => {
-            want_some = Some(N == 0 || l == N);
-            if N != 0 && l < N {
-                new_len = l + 1;
-            }
-        }
-        ZAct::TryPushBack | ZAct::TryPushFront => {
-            want_some = Some(l == N); // Err
-            if l < N {
-                new_len = l + 1;
-            }
-        }
-        ZAct::PopBack | ZAct::PopFront => {
-            want_some = Some(l > 0);
-            new_len = l.saturating_sub(1);
-        }
-        ZAct::Remove(i) | ZAct::SwapRemoveBack(i) | ZAct::SwapRemoveFront(i) => {
-            want_some = Some(i < l);
-            if i < l {
-                new_len = l - 1;
-            }
-        }
-        ZAct::Swap(..) | ZAct::MakeContiguous => {}
-        ZAct::TruncateBack(k) | ZAct::TruncateFront(k) => new_len = l.min(k),
-        ZAct::Clear => new_len = 0,
-        ZAct::Extend(m) | ZAct::ExtendFromSlice(m) => new_len = (l + m).min(N),
-        ZAct::Drain(a, bb, _) => {
-            if !expect_panic {
-                let e = if bb == MAXI { l } else { bb };
-                new_len = l - (e - a);
-            }
-        }
+/// Everything observable about one step (no addresses; capacity-dependent facts kept separate).
+#[derive(Clone, PartialEq, Eq, Debug)]
+pub struct StepObs {
+    pub outcome: String,
+    pub len: usize,
+    pub is_empty: bool,
+    pub live: i64,
+    pub views: String,
+    pub is_full: bool,
+}
+
+fn shape(s: Option<bool>) -> &'static str {
+    match s {
+        None => "()",
+        Some(true) => "Some/Err",
+        Some(false) => "None/Ok",
     }
-    let live0 = live();
-    let r = catch_unwind(AssertUnwindSafe(|| -> Result<(), String> {
-        let got_some: Option<bool> = match act {
-            ZAct::PushBack => Some(b.push_back(Z::new()).is_some()),
-            ZAct::PushFront => Some(b.push_front(Z::new()).is_some()),
-            ZAct::TryPushBack => Some(b.try_push_back(Z::new()).is_err()),
-            ZAct::TryPushFront => Some(b.try_push_front(Z::new()).is_err()),
+}
+
+/// apply one action on the real buffer; the outcome is a string ("()", "Some/Err", "None/Ok", "panic", or a complaint)
+fn do_act<const N: usize, T: Elem>(b: &mut CircularBuffer<N, T>, act: ZAct) -> String {
+    let l = b.len();
+    let r = catch_unwind(AssertUnwindSafe(|| -> String {
+        let got: Option<bool> = match act {
+            ZAct::PushBack => Some(b.push_back(T::new()).is_some()),
+            ZAct::PushFront => Some(b.push_front(T::new()).is_some()),
+            ZAct::TryPushBack => Some(b.try_push_back(T::new()).is_err()),
+            ZAct::TryPushFront => Some(b.try_push_front(T::new()).is_err()),
             ZAct::PopBack => Some(b.pop_back().is_some()),
             ZAct::PopFront => Some(b.pop_front().is_some()),
             ZAct::Remove(i) => Some(b.remove(i).is_some()),
@@ -253,37 +238,28 @@ fn step<const N: usize>(b: &mut CircularBuffer<N, Z>, len: &mut usize, act: ZAct
                 None
             }
             ZAct::Extend(m) => {
-                b.extend((0..m).map(|_| Z::new()));
+                b.extend((0..m).map(|_| T::new()));
                 None
             }
             ZAct::ExtendFromSlice(m) => {
-                let v: Vec<Z> = (0..m).map(|_| Z::new()).collect();
+                let v: Vec<T> = (0..m).map(|_| T::new()).collect();
                 b.extend_from_slice(&v);
                 None
             }
             ZAct::MakeContiguous => {
                 let n = b.make_contiguous().len();
-                if n != l {
-                    return Err(format!("make_contiguous returned {} elements, length is {}", n, l));
-                }
-                if !b.as_slices().1.is_empty() {
-                    return Err("after make_contiguous the second slice is not empty".into());
-                }
-                None
+                let second_empty = b.as_slices().1.is_empty();
+                return format!("contiguous:{}:{}", n, second_empty);
             }
             ZAct::Drain(a, bb, k) => {
-                let e = if bb == MAXI { l } else { bb };
-                let want = e.wrapping_sub(a);
                 let mut d = if bb == MAXI { b.drain(a..) } else { b.drain(a..bb) };
-                if d.len() != want {
-                    return Err(format!("drain len() = {}, expected {}", d.len(), want));
-                }
-                let mut got = 0;
+                let announced = d.len();
+                let mut got = 0usize;
                 match k {
                     1 => {
                         while d.next().is_some() {
                             got += 1;
-                            if got > want + 1 {
+                            if got > l + 2 {
                                 break;
                             }
                         }
@@ -291,150 +267,168 @@ fn step<const N: usize>(b: &mut CircularBuffer<N, Z>, len: &mut usize, act: ZAct
                     2 => {
                         while d.next_back().is_some() {
                             got += 1;
-                            if got > want + 1 {
+                            if got > l + 2 {
                                 break;
                             }
                         }
                     }
-                    _ => got = want,
+                    _ => {}
                 }
-                if got != want {
-                    return Err(format!("drain yielded {} elements, expected {}", got, want));
-                }
-                None
+                return format!("drain:{}:{}", announced, got);
             }
         };
-        if got_some != want_some {
-            return Err(format!("returned {} but the model says {}", shape(got_some), shape(want_some)));
-        }
-        Ok(())
+        shape(got).to_string()
     }));
     match r {
-        Err(p) => {
-            if !expect_panic {
-                return Err(format!("panicked: {}", crate::panic_text(&p)));
-            }
-        }
-        Ok(Err(e)) => return Err(e),
-        Ok(Ok(())) => {
-            if expect_panic {
-                return Err("returned normally although the documentation promises a panic".into());
-            }
-        }
-    }
-    *len = new_len;
-    let _ = live0;
-    observe(b, *len)
-}
-
-fn shape(s: Option<bool>) -> &'static str {
-    match s {
-        None => "()",
-        Some(true) => "Some/Err",
-        Some(false) => "None/Ok",
+        Ok(s) => s,
+        Err(_) => "panic".to_string(),
     }
 }
 
-/// all cost-independent observers against the model length
-fn observe<const N: usize>(b: &CircularBuffer<N, Z>, len: usize) -> Result<(), String> {
-    let r = catch_unwind(AssertUnwindSafe(|| -> Result<(), String> {
-        if b.len() != len {
-            return Err(format!("len() = {}, model says {}", b.len(), len));
-        }
-        if b.is_empty() != (len == 0) || b.is_full() != (len == N) || b.capacity() != N {
-            return Err(format!("is_empty()={} is_full()={} capacity()={} with len {}", b.is_empty(), b.is_full(), b.capacity(), len));
-        }
-        if live() != len as i64 {
-            return Err(format!("{} elements are alive, the buffer should hold {}", live(), len));
-        }
+/// all cost-independent observers, as a comparable string
+fn views<const N: usize, T: Elem>(b: &CircularBuffer<N, T>) -> String {
+    let r = catch_unwind(AssertUnwindSafe(|| -> String {
+        let len = b.len();
         let (x, y) = b.as_slices();
-        if x.len().checked_add(y.len()) != Some(len) {
-            return Err(format!("as_slices lengths {}+{} != {}", x.len(), y.len(), len));
+        let mut s = format!("slices={:?} iter={}/{}/{}", x.len().checked_add(y.len()), b.iter().len(), b.iter().count(), b.iter().rev().count());
+        for i in [0usize, 1, 2, len.wrapping_sub(1), len, len.wrapping_add(1), MAXI] {
+            s.push_str(&format!(" g{}{}{}", b.get(i).is_some() as u8, b.nth_front(i).is_some() as u8, b.nth_back(i).is_some() as u8));
         }
-        if b.iter().len() != len || b.iter().count() != len || b.iter().rev().count() != len {
-            return Err("iter() length disagrees".into());
-        }
-        for i in [0usize, 1, 2, len.wrapping_sub(1), len, len + 1, MAXI] {
-            let want = i < len;
-            if b.get(i).is_some() != want || b.nth_front(i).is_some() != want || b.nth_back(i).is_some() != want {
-                return Err(format!("get/nth_front/nth_back({}) presence is wrong for len {}", i, len));
-            }
-        }
-        if b.front().is_some() != (len > 0) || b.back().is_some() != (len > 0) {
-            return Err("front()/back() presence is wrong".into());
-        }
-        if b.range(..).len() != len || (len > 0 && b.range(1..).len() != len - 1) || b.range(..len).len() != len {
-            return Err("range() length is wrong".into());
-        }
+        s.push_str(&format!(" fb{}{}", b.front().is_some() as u8, b.back().is_some() as u8));
+        s.push_str(&format!(" r{}", b.range(..).len()));
         if len > 0 {
+            s.push_str(&format!(",{},{}", b.range(1..).len(), b.range(..len).len()));
             let _ = &b[len - 1];
         }
         let dbg = format!("{:?}", b);
-        if dbg.matches('Z').count() != len {
-            return Err(format!("Debug shows {} elements, expected {}", dbg.matches('Z').count(), len));
-        }
+        s.push_str(&format!(" dbg{}", if dbg == "[]" { 0 } else { dbg.matches(", ").count() + 1 }));
         let _ = fnv_of(b);
-        // clone: len more elements come alive, and die with the clone
+        let before = T::live();
         let c = b.clone();
-        if c.len() != len || live() != 2 * len as i64 {
-            return Err(format!("clone has len {} and {} elements alive in total, expected {} / {}", c.len(), live(), len, 2 * len));
-        }
-        if !(c == *b) || c.partial_cmp(b) != Some(std::cmp::Ordering::Equal) || c.cmp(b) != std::cmp::Ordering::Equal {
-            return Err("a clone does not compare equal".into());
-        }
+        s.push_str(&format!(" clone{}+{}", c.len(), T::live() - before));
+        s.push_str(&format!(" eq{}{:?}{:?}", (c == *b) as u8, c.partial_cmp(b), c.cmp(b)));
         drop(c);
-        if live() != len as i64 {
-            return Err("dropping a clone changed the number of live elements of the original".into());
-        }
+        s.push_str(&format!(" after{}", T::live() - before));
         #[cfg(feature = "alloc")]
         {
-            let v = b.to_vec();
-            if v.len() != len {
-                return Err(format!("to_vec has {} elements", v.len()));
-            }
+            s.push_str(&format!(" vec{}", b.to_vec().len()));
         }
-        Ok(())
+        s
     }));
     match r {
         Ok(x) => x,
-        Err(p) => Err(format!("an observer panicked: {}", crate::panic_text(&p))),
+        Err(_) => "observer-panic".to_string(),
     }
 }
 
-/// run one sequence; returns Err((step index, text))
-pub fn run_seq<const N: usize>(prefix: (u8, usize), seq: &[ZAct]) -> Result<(), (usize, String)> {
-    reset_counters();
-    let mut b = CircularBuffer::<N, Z>::new();
-    let mut len = 0usize;
+fn observe<const N: usize, T: Elem>(b: &CircularBuffer<N, T>, outcome: String) -> StepObs {
+    StepObs { outcome, len: b.len(), is_empty: b.is_empty(), live: T::live(), views: views(b), is_full: b.is_full() }
+}
+
+/// run prefix + sequence on the real code with element type T; one observation per step (+ prefix, + final drop)
+pub fn run_obs<const N: usize, T: Elem>(prefix: (u8, usize), seq: &[ZAct]) -> Vec<StepObs> {
+    T::reset_counters();
+    let mut out = vec![];
+    let mut b = CircularBuffer::<N, T>::new();
     let r = catch_unwind(AssertUnwindSafe(|| apply_prefix(&mut b, prefix)));
-    if let Err(p) = r {
+    out.push(observe(&b, if r.is_err() { "panic".into() } else { "prefix".into() }));
+    if r.is_err() {
         std::mem::forget(b);
-        return Err((0, format!("positioning prefix panicked: {}", crate::panic_text(&p))));
+        return out;
     }
-    if let Err(e) = observe(&b, 0) {
-        std::mem::forget(b);
-        return Err((0, format!("after the positioning prefix: {}", e)));
-    }
-    for (i, a) in seq.iter().enumerate() {
-        if let Err(e) = step(&mut b, &mut len, *a) {
+    for a in seq {
+        let o = do_act(&mut b, *a);
+        let stop = o == "panic" && !expected_panic(*a, out.last().map(|x| x.len).unwrap_or(0));
+        out.push(observe(&b, o));
+        if stop {
             std::mem::forget(b);
-            return Err((i, e));
+            return out;
         }
     }
     let r = catch_unwind(AssertUnwindSafe(move || drop(b)));
-    if let Err(p) = r {
-        return Err((seq.len(), format!("dropping the buffer panicked: {}", crate::panic_text(&p))));
-    }
-    if live() != 0 {
-        return Err((seq.len(), format!("{} elements still alive after the buffer was dropped", live())));
-    }
-    Ok(())
+    out.push(StepObs { outcome: if r.is_err() { "panic".into() } else { "dropped".into() }, len: 0, is_empty: true, live: T::live(), views: String::new(), is_full: false });
+    out
 }
 
-fn enumerate<const N: usize>(o: &Opts, rep: &mut Report, cap_idx: usize) {
+fn expected_panic(act: ZAct, l: usize) -> bool {
+    match act {
+        ZAct::Swap(i, j) => i >= l || j >= l,
+        ZAct::Drain(a, bb, _) => {
+            let e = if bb == MAXI { l } else { bb };
+            a > e || e > l
+        }
+        _ => false,
+    }
+}
+
+/// what the sequence semantics predict for the outcome and the length (model; used for statistics and as a vacuity guard)
+fn model_step(cap: usize, l: usize, act: ZAct) -> (String, usize) {
+    if expected_panic(act, l) {
+        return ("panic".into(), l);
+    }
+    let some = |b: bool| shape(Some(b)).to_string();
+    match act {
+        ZAct::PushBack | ZAct::PushFront => (some(cap == 0 || l == cap), if cap != 0 && l < cap { l + 1 } else { l }),
+        ZAct::TryPushBack | ZAct::TryPushFront => (some(l == cap), if l < cap { l + 1 } else { l }),
+        ZAct::PopBack | ZAct::PopFront => (some(l > 0), l.saturating_sub(1)),
+        ZAct::Remove(i) | ZAct::SwapRemoveBack(i) | ZAct::SwapRemoveFront(i) => (some(i < l), if i < l { l - 1 } else { l }),
+        ZAct::Swap(..) => ("()".into(), l),
+        ZAct::MakeContiguous => (format!("contiguous:{}:true", l), l),
+        ZAct::TruncateBack(k) | ZAct::TruncateFront(k) => ("()".into(), l.min(k)),
+        ZAct::Clear => ("()".into(), 0),
+        ZAct::Extend(m) | ZAct::ExtendFromSlice(m) => ("()".into(), (l + m).min(cap)),
+        ZAct::Drain(a, bb, k) => {
+            let e = if bb == MAXI { l } else { bb };
+            (format!("drain:{}:{}", e - a, if k == 0 { 0 } else { e - a }), l - (e - a))
+        }
+    }
+}
+
+/// Compare the ZST run at capacity N with the ordinary-element reference run at capacity R.
+/// Returns Err((step, text)) for the first step where the zero-sized / huge-capacity buffer behaves
+/// differently from "any other" buffer; `model_ok` reports whether it also matches the model.
+pub fn run_seq<const N: usize, const R: usize>(prefix: (u8, usize), seq: &[ZAct]) -> (Result<(), (usize, String)>, bool) {
+    let z = run_obs::<N, Z>(prefix, seq);
+    let s = run_obs::<R, S>(prefix, seq);
+    // model (statistics / vacuity guard only)
+    let mut model_ok = true;
+    let mut l = 0usize;
+    for (i, a) in seq.iter().enumerate() {
+        let (o, nl) = model_step(N, l, *a);
+        match z.get(i + 1) {
+            Some(x) if x.outcome == o && x.len == nl && x.live == nl as i64 => {}
+            _ => {
+                model_ok = false;
+                break;
+            }
+        }
+        l = nl;
+    }
+    for i in 0..z.len().max(s.len()) {
+        let what = if i == 0 { "positioning prefix".to_string() } else if i <= seq.len() { seq[i - 1].show() } else { "final drop".to_string() };
+        match (z.get(i), s.get(i)) {
+            (Some(a), Some(b)) => {
+                let same_cap = N == R;
+                let eq = a.outcome == b.outcome && a.len == b.len && a.is_empty == b.is_empty && a.live == b.live && a.views == b.views && (!same_cap || a.is_full == b.is_full);
+                // capacity-dependent facts are absolute: a huge buffer with a handful of elements is never full
+                let full_ok = same_cap || !a.is_full;
+                if !eq || !full_ok {
+                    return (Err((i.saturating_sub(1), format!("{}: zero-sized/capacity {} gives {:?} but an ordinary element at capacity {} gives {:?}", what, cap_name(N), a, R, b))), model_ok);
+                }
+            }
+            (a, b) => {
+                return (Err((i.saturating_sub(1), format!("{}: runs have different lengths: {:?} vs {:?}", what, a, b))), model_ok);
+            }
+        }
+    }
+    (Ok(()), model_ok)
+}
+
+fn enumerate<const N: usize, const R: usize>(o: &Opts, rep: &mut Report, cap_idx: usize) {
     let (depth, reduced_depth) = if o.thorough() { (4, 5) } else { (3, 0) };
     let mut total = 0u64;
     let mut steps = 0u64;
+    let mut model_mismatch = 0u64;
     for (pi, prefix) in prefixes().into_iter().enumerate() {
         for (alpha, d) in [(alphabet(false), depth), (alphabet(true), reduced_depth)] {
             if d == 0 {
@@ -459,7 +453,11 @@ fn enumerate<const N: usize>(o: &Opts, rep: &mut Report, cap_idx: usize) {
                 }
                 total += 1;
                 steps += d as u64;
-                if let Err((i, e)) = run_seq::<N>(prefix, &seq) {
+                let (res, model_ok) = run_seq::<N, R>(prefix, &seq);
+                if !model_ok {
+                    model_mismatch += 1;
+                }
+                if let Err((i, e)) = res {
                     let bad = seq.get(i).map(|a| a.show()).unwrap_or_else(|| "drop".into());
                     rep.violation(Violation {
                         sig: format!("cap={}:{}:{}", cap_name(N), bad.split('(').next().unwrap_or(""), e.split(' ').take(2).collect::<Vec<_>>().join("_")),
@@ -468,7 +466,7 @@ fn enumerate<const N: usize>(o: &Opts, rep: &mut Report, cap_idx: usize) {
                     });
                 }
                 if x == (count / 7) * (pi as u64 + 1) + 5 {
-                    let s = format!("capacity {} front-positioning prefix {:?} then [{}]: every step's return shape, len, is_full, live-element count and all cost-independent observers match the model", cap_name(N), prefix, seq.iter().map(|a| a.show()).collect::<Vec<_>>().join("; "));
+                    let s = format!("capacity {} front-positioning prefix {:?} then [{}]: every step's return shape, len, live-element count and all cost-independent observers equal those of an ordinary-element buffer running the same sequence", cap_name(N), prefix, seq.iter().map(|a| a.show()).collect::<Vec<_>>().join("; "));
                     rep.sample(&format!("seq-{}-{}", d, pi), move || s);
                 }
             }
@@ -482,6 +480,7 @@ fn enumerate<const N: usize>(o: &Opts, rep: &mut Report, cap_idx: usize) {
     rep.outcomes.insert(fnv_of(&(N, total)));
     rep.action("sequence-step");
     rep.count("sequences", total);
+    rep.count("sequences_where_zst_and_ordinary_agree_but_differ_from_the_model", model_mismatch);
     rep.notes.push(format!("capacity {}: all sequences of depth {} over {} actions (+ depth {} over {} actions) x {} positioning prefixes, no state merging", cap_name(N), depth, alphabet(false).len(), reduced_depth, alphabet(true).len(), prefixes().len()));
     rep.fixpoint = false;
 }
@@ -503,18 +502,20 @@ pub fn cap_name(n: usize) -> String {
 macro_rules! with_cap {
     ($idx:expr, $f:ident, $($a:expr),*) => {
         match $idx {
-            0 => $f::<{ usize::MAX }>($($a),*),
-            1 => $f::<{ usize::MAX - 1 }>($($a),*),
-            2 => $f::<{ (1 << 63) + 1 }>($($a),*),
-            3 => $f::<{ 1 << 63 }>($($a),*),
-            4 => $f::<{ (1 << 63) - 1 }>($($a),*),
-            5 => $f::<{ (1 << 32) + 1 }>($($a),*),
-            6 => $f::<{ 1 << 32 }>($($a),*),
-            7 => $f::<{ (1 << 32) - 1 }>($($a),*),
-            8 => $f::<0>($($a),*),
-            9 => $f::<1>($($a),*),
-            10 => $f::<2>($($a),*),
-            11 => $f::<3>($($a),*),
+            // huge capacities: the reference is an ordinary-element buffer that never fills up either
+            0 => $f::<{ usize::MAX }, 16>($($a),*),
+            1 => $f::<{ usize::MAX - 1 }, 16>($($a),*),
+            2 => $f::<{ (1 << 63) + 1 }, 16>($($a),*),
+            3 => $f::<{ 1 << 63 }, 16>($($a),*),
+            4 => $f::<{ (1 << 63) - 1 }, 16>($($a),*),
+            5 => $f::<{ (1 << 32) + 1 }, 16>($($a),*),
+            6 => $f::<{ 1 << 32 }, 16>($($a),*),
+            7 => $f::<{ (1 << 32) - 1 }, 16>($($a),*),
+            // small capacities: same capacity, ordinary element
+            8 => $f::<0, 0>($($a),*),
+            9 => $f::<1, 1>($($a),*),
+            10 => $f::<2, 2>($($a),*),
+            11 => $f::<3, 3>($($a),*),
             _ => panic!("unsupported capacity index"),
         }
     };
@@ -524,8 +525,8 @@ pub fn c19_check(cap_idx: usize, o: &Opts, rep: &mut Report) {
     with_cap!(cap_idx, enumerate, o, rep, cap_idx)
 }
 
-fn replay_one<const N: usize>(prefix: (u8, usize), seq: &[ZAct]) -> Result<(), (usize, String)> {
-    run_seq::<N>(prefix, seq)
+fn replay_one<const N: usize, const R: usize>(prefix: (u8, usize), seq: &[ZAct]) -> Result<(), (usize, String)> {
+    run_seq::<N, R>(prefix, seq).0
 }
 
 pub fn replay_c19(c: &Case) -> Result<i32, String> {
@@ -536,7 +537,7 @@ pub fn replay_c19(c: &Case) -> Result<i32, String> {
     println!("capacity {} prefix {:?} sequence [{}]", cap_name(CAPS[c.n]), prefix, c.act);
     match r {
         Ok(()) => {
-            println!("all steps match the model");
+            println!("the zero-sized run equals the ordinary-element run at every step");
             Ok(0)
         }
         Err((i, e)) => {
